@@ -74,15 +74,6 @@ where
     BitDecomposed<Replicated<Boolean, B>>:
         for<'a> TransposeFrom<&'a [Replicated<V>; B], Error = Infallible>,
 {
-    // This was checked early in the protocol, but we need to check again here, in case
-    // there were no matching pairs of reports.
-    if attributed_values.is_empty() {
-        return Ok(BitDecomposed::new(std::iter::repeat_n(
-            Replicated::<Boolean, B>::ZERO,
-            usize::try_from(HV::BITS).unwrap(),
-        )));
-    }
-
     // Apply DP padding for Breakdown Reveal Aggregation
     let attributed_values_padded = apply_dp_padding::<_, AggregateableHybridReport<BK, V>, B>(
         ctx.narrow(&Step::PaddingDp),
@@ -96,6 +87,16 @@ where
         .sharded_shuffle(attributed_values_padded)
         .instrument(info_span!("shuffle_attribution_outputs"))
         .await?;
+
+    // This shard may have nothing to aggregate: there were no matching pairs of reports, or
+    // the shuffle left it without rows. This can only be checked after the shuffle, because
+    // all shards take part in it.
+    if attributions.is_empty() {
+        return Ok(BitDecomposed::new(std::iter::repeat_n(
+            Replicated::<Boolean, B>::ZERO,
+            usize::try_from(HV::BITS).unwrap(),
+        )));
+    }
 
     // Revealing the breakdowns doesn't do any multiplies, so won't make it as far as
     // doing a proof, but we need the validator to obtain an upgraded malicious context.
